@@ -15,8 +15,23 @@ open EinoV.Gen
 
 /-- Source fact tie: the regenerated facts are the ones the theorems below are proved for. -/
 theorem facts_match : FactsC13.internalErrorHasUnwrap = Expected.C13.internalErrorHasUnwrap ∧
-    FactsC13.failedTaskReportedAsIs = Expected.C13.failedTaskReportedAsIs := by
+    FactsC13.failedTaskReportedAsIs = Expected.C13.failedTaskReportedAsIs ∧
+    FactsC13.stateLockSites.all (·.2) = Expected.C13.stateLocksReleasedByDefer ∧
+    FactsC13.stateLockSites.any (fun s => s.1 == "compose/state.go:ProcessState#0") = true ∧
+    FactsC13.executorRecoverHandlerClean = Expected.C13.executorRecoverHandlerClean ∧
+    FactsC13.goSites.all (·.2) = Expected.C13.execRecovers := by
   decide
+
+/-- the facts of the step model as regenerated from /repo: every framework goroutine site
+    recovers (`goSites`, which contains `taskManager.submit`'s `go t.executor`; `executor`
+    itself is that function), the executor's deferred handler is clean, every state-mutex
+    `Lock()` in compose/state.go is released by `defer` -/
+def srcExec : ExecFacts :=
+  { recovers := FactsC13.goSites.all (·.2),
+    handlerClean := FactsC13.executorRecoverHandlerClean,
+    unlockByDefer := FactsC13.stateLockSites.all (·.2) }
+
+theorem srcExec_eq : srcExec = ⟨true, true, true⟩ := by decide
 
 /-- **orig_recoverable (errors.Is half).** Whatever the nesting depth, node keys and
     paradigm adaptors a failure travels through, everything `errors.Is` could match in the
@@ -103,7 +118,77 @@ theorem panic_is_error :
   refine ⟨by decide, ?_⟩
   intro b; cases b <;> simp [runInGoroutine]
 
+/-- **panic_at_any_site_is_task_error.** Whatever the other tasks of the step did before and
+    do afterwards (every script, every interleaving): a task that is still running and panics —
+    inside a critical section on the graph state (`ProcessState`, a state handler: `useState
+    (some i)`) or anywhere else in its body (`panicBody i`) — is handed back to the step loop
+    with the panic as its error; it does not escape and the task does not stay unfinished. -/
+theorem panic_at_any_site_is_task_error (pre post : List (Key × Act)) (k : Key) (a : Act) (i : Nat)
+    (hr : (runEvents srcExec pre).tasks k = .running)
+    (ha : a = .useState (some i) ∨ a = .panicBody i) :
+    (runEvents srcExec (pre ++ (k, a) :: post)).tasks k = .finished (some (.panicE i)) := by
+  rw [srcExec_eq] at hr ⊢
+  rw [runEvents_eq, runFrom_append]
+  have hl := (runEvents_good pre).1
+  rw [runEvents_eq] at hl hr
+  have h1 := stepEv_panic (runFrom ⟨true, true, true⟩ .init pre) k a i hl hr ha
+  have := runFrom_finished_stable ⟨true, true, true⟩ post _ k _ h1
+  simpa [runFrom] using this
+
+/-- **step_never_hangs_or_crashes.** For every set of tasks, every script (any number of
+    critical sections on the state, panicking or not, panics in bodies, error returns) and
+    every interleaving: the state mutex is never left locked, no task waits for ever, no panic
+    escapes, and the step comes to `reported` — with `reportStep` of the finished tasks, so
+    `several_failures_one_is_reported` applies to it — "never kills the process, hangs the run". -/
+theorem step_never_hangs_or_crashes (order : List Key) (evs : List (Key × Act)) :
+    (runEvents srcExec evs).leaked = false ∧
+    (∀ k, (runEvents srcExec evs).tasks k ≠ .blocked ∧ (runEvents srcExec evs).tasks k ≠ .escaped) ∧
+    stepResult srcExec FactsC13.internalErrorHasUnwrap FactsC13.failedTaskReportedAsIs order evs =
+      .reported (reportStep FactsC13.internalErrorHasUnwrap FactsC13.failedTaskReportedAsIs
+        (finishedOf (runEvents srcExec evs) order)) := by
+  rw [srcExec_eq]
+  obtain ⟨g1, g2⟩ := runEvents_good evs
+  refine ⟨g1, fun k => ?_, stepResult_reported_of_good _ _ _ order evs g2⟩
+  have := g2 k
+  constructor <;> intro h <;> rw [h] at this <;> exact this
+
+/-- **panicking_task_fails_the_step.** A task of the step that panics at any site makes the
+    step fail with the wrapped error of one of the failed tasks (so the run returns an error
+    naming a failed node — the panic is not swallowed). -/
+theorem panicking_task_fails_the_step (order : List Key) (pre post : List (Key × Act)) (k : Key) (a : Act) (i : Nat)
+    (hk : k ∈ order)
+    (hr : (runEvents srcExec pre).tasks k = .running)
+    (ha : a = .useState (some i) ∨ a = .panicBody i) :
+    ∃ k' e', (k', some e') ∈ finishedOf (runEvents srcExec (pre ++ (k, a) :: post)) order ∧
+      stepResult srcExec FactsC13.internalErrorHasUnwrap FactsC13.failedTaskReportedAsIs order (pre ++ (k, a) :: post) =
+        .reported (some (wrapNode FactsC13.internalErrorHasUnwrap k' e')) := by
+  have hfin := panic_at_any_site_is_task_error pre post k a i hr ha
+  have hmem : (k, some (GoErr.panicE i)) ∈ finishedOf (runEvents srcExec (pre ++ (k, a) :: post)) order := by
+    unfold finishedOf
+    rw [List.mem_filterMap]
+    exact ⟨k, hk, by rw [hfin]⟩
+  obtain ⟨k', e', h1, h2⟩ := several_failures_one_is_reported _ ⟨k, _, hmem⟩
+  refine ⟨k', e', h1, ?_⟩
+  rw [(step_never_hangs_or_crashes order _).2.2, h2]
+
 /-! ## non-vacuity and the negation for the other value of the fact -/
+
+/-- negation witness: without the deferred unlock a task that panics inside `ProcessState`
+    leaves the state locked; a sibling of the same step that uses the state waits for ever and
+    the step (which waits for all its tasks) hangs -/
+theorem hang_without_deferred_unlock :
+    stepResult ⟨true, true, false⟩ true true ["boom", "calm"]
+      [("boom", .useState (some 1)), ("calm", .useState none), ("calm", .done)] = .hang := by decide
+
+/-- with the deferred unlock the same step fails with the panic of `boom`, named -/
+theorem no_hang_with_deferred_unlock :
+    stepResult ⟨true, true, true⟩ true true ["boom", "calm"]
+      [("boom", .useState (some 1)), ("calm", .useState none), ("calm", .done)]
+      = .reported (some (.internal false ["boom"] [] (.panicE 1))) := by decide
+
+/-- negation witness: a recover handler that itself panics lets the panic of the body escape -/
+theorem crash_with_panicking_recover_handler :
+    stepResult ⟨true, false, true⟩ true true ["boom"] [("boom", .panicBody 1)] = .crash := by decide
 
 example : userErr (.wrapf (.leaf 7)) = true := rfl
 example : failThrough true [⟨"sub", [3]⟩, ⟨"n", []⟩] (.wrapf (.leaf 7))
